@@ -295,9 +295,20 @@ def tr_doc_to_object(tree):
         raise TranslateError('_doc_to_object: more than one wrapper key is not a ValidationError')
     e = BoolTranslator(lambda n: None, cmp, num).tr(empty.test)
     m = BoolTranslator(lambda n: None, cmp, num).tr(toomany.test)
+    # inside `if mo > 1:` the items are iterated; is a value that cannot be iterated refused first?
+    loops = [x for x in st.body if isinstance(x, ast.For)]
+    if len(loops) != 1 or ast.dump(loops[0].iter) != ast.dump(ast.parse('v', mode='eval').body):
+        raise TranslateError('_doc_to_object: the repeated branch no longer iterates `for a in v`')
+    guard = ast.dump(ast.parse('if not isinstance(v, AbcIterable):\n    raise ValidationError(v)').body[0])
+    before = [ast.dump(x) for x in st.body[:st.body.index(loops[0])]]
+    scalar = TRUE if guard in before else FALSE
+    if any('AbcIterable' in b for b in before if b != guard):
+        raise TranslateError('_doc_to_object: unrecognised iterability test in the repeated branch')
     return ('Definition reads_many (mo : ext) : bool :=\n  %s.\n'
             'Definition wrapper_empty (n : ext) : bool :=\n  %s.\n'
-            'Definition wrapper_too_many (n : ext) : bool :=\n  %s.\n' % (many, e, m))
+            'Definition wrapper_too_many (n : ext) : bool :=\n  %s.\n'
+            '(* a value that cannot be iterated, given for a repeated member, is a ValidationError (else TypeError) *)\n'
+            'Definition scalar_for_repeated_refused : bool := %s.\n' % (many, e, m, scalar))
 
 
 def tr_from_dict_value(tree):
@@ -338,7 +349,33 @@ def tr_from_dict_value(tree):
     if "attr='validate_string'" not in rest or "attr='from_serstr'" not in rest \
             or "attr='validate_string'" in ''.join(ast.dump(x) for x in seq[:i]):
         raise TranslateError('_from_dict_value: validate_string / from_serstr no longer follow the decoding')
-    return ('(* a null complex / array member is read as None (not handed to _doc_to_object) *)\n'
+    # the two guards in front of the leaf conversion (every validator)
+    gtext = ast.dump(ast.parse(
+        "if inst is not None and not isinstance(inst, self.VALID_UNICODE_SOURCES) "
+        "and issubclass(cls, self.stringified_types + (ByteArray,)) "
+        "and getattr(cls_attrs, 'serialize_as', None) is None:\n    raise ValidationError([key, inst])").body[0])
+    gnum = ast.dump(ast.parse(
+        "if inst is not None and issubclass(cls, Decimal) and not isinstance(inst, self.VALID_NUMBER_SOURCES):\n"
+        "    raise ValidationError([key, inst])").body[0])
+    head = [ast.dump(x) for x in seq[:i]]
+    has_text, has_num = gtext in head, gnum in head
+    for h in head:
+        if h not in (gtext, gnum) and ('VALID_' in h or 'stringified_types' in h):
+            raise TranslateError('_from_dict_value: unrecognised source guard before the leaf conversion')
+    cls_ = [c for c in tree.body if isinstance(c, ast.ClassDef) and c.name == 'HierDictDocument'][0]
+    consts = {a.targets[0].id: ast.dump(a.value) for a in cls_.body
+              if isinstance(a, ast.Assign) and isinstance(a.targets[0], ast.Name)}
+    if consts.get('VALID_UNICODE_SOURCES') != ast.dump(ast.parse(
+            '(six.text_type, six.binary_type, memoryview, mmap, bytearray)', mode='eval').body):
+        raise TranslateError('HierDictDocument.VALID_UNICODE_SOURCES is not what it was')
+    if has_num and consts.get('VALID_NUMBER_SOURCES') != ast.dump(ast.parse(
+            'six.integer_types + (float, decimal.Decimal, six.text_type, six.binary_type)', mode='eval').body):
+        raise TranslateError('HierDictDocument.VALID_NUMBER_SOURCES is not (int, float, Decimal, str, bytes)')
+    return ('(* a non-text value for a ByteArray (or date / time / duration / uuid) member is refused under every validator *)\n'
+            'Definition binary_source_checked : bool := %s.\n'
+            '(* a value that is not a number or text (a list, a map, a tuple) for an Integer / Double / Decimal member is refused *)\n'
+            'Definition number_source_checked : bool := %s.\n' % (TRUE if has_text else FALSE, TRUE if has_num else FALSE) +
+            '(* a null complex / array member is read as None (not handed to _doc_to_object) *)\n'
             'Definition null_member_is_none : bool := %s.\n'
             '(* a byte string for a non-binary leaf is decoded (UnicodeError -> ValidationError) before\n'
             '   validate_string and the conversion *)\n'
@@ -346,50 +383,168 @@ def tr_from_dict_value(tree):
 
 
 def tr_deserialize(tree):
+    """the decisions of HierDictDocument.deserialize for a REQUEST, read statement by statement:
+    which key the body is looked up under, and what a null body becomes"""
     fn = find_function(tree, ['HierDictDocument', 'deserialize'])
     st = find_stmt(fn, lambda n: isinstance(n, ast.If) and ast.dump(n.test) == ast.dump(
         ast.parse('self.ignore_wrappers', mode='eval').body) and 'class_name' in ast.dump(n), '`if self.ignore_wrappers:`')
-    plain = "doc = doc.get(class_name, None)"
-    both = ("if isinstance(class_name, bytes) and not (class_name in doc):\n"
-            "    class_name = class_name.decode('utf8')\n")
-    bare = ("sub_name = body_class.Attributes.sub_name\n"
-            "if message is self.REQUEST and sub_name is not None:\n"
-            "    if isinstance(class_name, bytes) and not isinstance(sub_name, bytes):\n"
-            "        sub_name = sub_name.encode('utf8')\n"
-            "    class_name = sub_name\n")
-    got = [ast.dump(x) for x in strip_doc(st.body)]
-    if got == tmpl(bare + both + plain):
-        v, b = TRUE, TRUE
-    elif got == tmpl(both + plain):
-        v, b = TRUE, FALSE
-    elif got == tmpl(plain):
-        v, b = FALSE, FALSE
-    else:
-        raise TranslateError('deserialize: unrecognised request body lookup')
-    # what follows the lookup: the wrapped in-message (sub_name is None, a ComplexModel) goes to _doc_to_object
     tail = [n for n in fn.body if isinstance(n, ast.If) and 'body_class' in ast.dump(n.test)]
     if len(tail) != 1:
         raise TranslateError('deserialize: expected one `if body_class:`')
     stmts = strip_doc(tail[0].body)
-    last = stmts[-2:]
-    call = "self._doc_to_object(ctx, body_class, doc, self.validator)"
-    old_tail = tmpl("result_message = %s\nctx.in_object = result_message" % call)
-    new_tail = tmpl("if message is self.REQUEST and doc is None and body_class.Attributes.sub_name is not None:\n"
-                    "    result_message = None\n"
-                    "elif message is self.REQUEST and not issubclass(body_class, (ComplexModelBase, Any)):\n"
-                    "    if not self.ignore_wrappers:\n"
-                    "        doc, = doc.values()\n"
-                    "    result_message = self._from_dict_value(ctx, class_name, body_class, doc, self.validator)\n"
-                    "else:\n"
-                    "    result_message = %s\n"
-                    "ctx.in_object = result_message" % call)
-    if [ast.dump(x) for x in last] not in (old_tail, new_tail):
+    if st not in stmts:
+        raise TranslateError('deserialize: the body lookup is not a statement of `if body_class:`')
+    i = stmts.index(st)
+    pre = [ast.dump(x) for x in stmts[:i]]
+    post = [ast.dump(x) for x in stmts[i + 1:]]
+    d = lambda src: ast.dump(ast.parse(src).body[0])
+    if d('class_name = self.get_class_name(body_class)') not in pre:
+        raise TranslateError('deserialize: class_name is not self.get_class_name(body_class)')
+    # -- inside `if self.ignore_wrappers:`: optional bare renaming, optional str form, then the lookup
+    body = strip_doc(st.body)
+    if not body or ast.dump(body[-1]) != d('doc = doc.get(class_name, None)') or st.orelse:
+        raise TranslateError('deserialize: the lookup is not `doc = doc.get(class_name, None)`')
+    rename = ("    if isinstance(class_name, bytes) and not isinstance(sub_name, bytes):\n"
+              "        sub_name = sub_name.encode('utf8')\n"
+              "    class_name = sub_name\n")
+    both = d("if isinstance(class_name, bytes) and not (class_name in doc):\n"
+             "    class_name = class_name.decode('utf8')\n")
+    sub = d('sub_name = body_class.Attributes.sub_name')
+    isb = d('is_bare = message is self.REQUEST and sub_name is not None')
+    rest = [ast.dump(x) for x in body[:-1]]
+    bare = FALSE
+    bare_name = None       # how later statements say "this is a bare request"
+    if rest and rest[0] == d('if is_bare:\n' + rename):
+        if sub not in pre or isb not in pre or pre.index(sub) > pre.index(isb):
+            raise TranslateError('deserialize: is_bare is not `message is self.REQUEST and sub_name is not None`')
+        bare, bare_name, rest = TRUE, 'is_bare', rest[1:]
+    elif len(rest) >= 2 and rest[0] == sub and rest[1] == d('if message is self.REQUEST and sub_name is not None:\n' + rename):
+        bare, bare_name, rest = TRUE, 'inline', rest[2:]
+    if rest == [both]:
+        v = TRUE
+    elif rest == []:
+        v = FALSE
+    else:
+        raise TranslateError('deserialize: unrecognised request body lookup')
+    # -- after the lookup: the branches that do not concern a wrapped in-message (a ComplexModel whose
+    #    sub_name is None) are only recognised; what a null body becomes is translated
+    call = 'self._doc_to_object(ctx, body_class, doc, self.validator)'
+    simple = ("message is self.REQUEST and not issubclass(body_class, (ComplexModelBase, Any)):\n"
+              "    if not self.ignore_wrappers:\n"
+              "        doc, = doc.values()\n")
+    absent = "[None] * len(body_class._type_info)"
+    shapes = {
+        ('plain', FALSE): "result_message = %s\nctx.in_object = result_message" % call,
+        ('inline', FALSE): ("if message is self.REQUEST and doc is None and body_class.Attributes.sub_name is not None:\n"
+                            "    result_message = None\n"
+                            "elif " + simple +
+                            "    result_message = self._from_dict_value(ctx, class_name, body_class, doc, self.validator)\n"
+                            "else:\n"
+                            "    result_message = %s\n"
+                            "ctx.in_object = result_message" % call),
+        ('is_bare', TRUE): ("if is_bare and doc is None:\n"
+                            "    ctx.in_object = None\n"
+                            "elif " + simple +
+                            "    ctx.in_object = self._from_dict_value(ctx, class_name, body_class, doc, self.validator)\n"
+                            "elif doc is None:\n"
+                            "    ctx.in_object = %s\n"
+                            "else:\n"
+                            "    ctx.in_object = %s\n" % (absent, call)),
+        ('plain', TRUE): ("if doc is None:\n"
+                          "    ctx.in_object = %s\n"
+                          "else:\n"
+                          "    ctx.in_object = %s\n" % (absent, call)),
+    }
+    null_absent = None
+    for (bn, na), src in shapes.items():
+        if post == tmpl(src) and bn == (bare_name or 'plain'):
+            null_absent = na
+    if null_absent is None:
         raise TranslateError('deserialize: the wrapped in-message no longer goes to _doc_to_object as it did')
     return ('(* the request body is found under the str form of a bytes class name too *)\n'
             'Definition body_lookup_both_key_forms : bool := %s.\n'
             '(* the argument of a bare method is looked up under the message name (sub_name); the\n'
             '   in-message of a wrapped method has no sub_name, so this does not touch the modelled region *)\n'
-            'Definition bare_body_under_message_name : bool := %s.\n' % (v, b))
+            'Definition bare_body_under_message_name : bool := %s.\n'
+            '(* {"method": null}: every argument is absent ([None] * n) instead of _doc_to_object(None) = [] *)\n'
+            'Definition null_body_absent_args : bool := %s.\n' % (v, bare, null_absent))
+
+
+def tr_rpc_envelope(tree):
+    """MessagePackRpc: what is not a request, and an undecodable method name, is a
+    Client.MessagePackDecodeError; nil parameters are absent arguments"""
+    fn = find_function(tree, ['MessagePackRpc', 'decompose_incoming_envelope'])
+    chain = [n for n in fn.body if isinstance(n, ast.If) and 'MSGPACK_REQUEST' in ast.dump(n.test)]
+    if len(chain) != 1:
+        raise TranslateError('MessagePackRpc.decompose_incoming_envelope: expected one chain on msgtype')
+    n = chain[0]
+    seen = []
+    is_dec = lambda x: isinstance(x, ast.Raise) and isinstance(x.exc, ast.Call) and \
+        isinstance(x.exc.func, ast.Name) and x.exc.func.id == 'MessagePackDecodeError'
+    while True:
+        t = n.test
+        ok = (isinstance(t, ast.Compare) and len(t.ops) == 1 and isinstance(t.ops[0], ast.Eq)
+              and isinstance(t.left, ast.Name) and t.left.id == 'msgtype'
+              and attr_chain(t.comparators[0]) and attr_chain(t.comparators[0])[0] == 'MessagePackRpc')
+        if not ok:
+            raise TranslateError('MessagePackRpc: unrecognised message type test')
+        kind = attr_chain(t.comparators[0])[-1]
+        b = n.body
+        if kind == 'MSGPACK_NOTIFY':
+            good = len(b) == 1 and is_dec(b[0])
+        else:
+            want = 'REQUEST' if kind == 'MSGPACK_REQUEST' else 'RESPONSE'
+            good = (len(b) == 1 and isinstance(b[0], ast.If) and not b[0].orelse and len(b[0].body) == 1
+                    and is_dec(b[0].body[0])
+                    and ast.dump(b[0].test) == ast.dump(ast.parse('message != MessagePackRpc.%s' % want, mode='eval').body))
+        if not good:
+            raise TranslateError('MessagePackRpc: message type %s is not answered with MessagePackDecodeError' % kind)
+        seen.append(kind)
+        if len(n.orelse) == 1 and isinstance(n.orelse[0], ast.If):
+            n = n.orelse[0]
+            continue
+        if not (len(n.orelse) == 1 and is_dec(n.orelse[0])
+                and ast.dump(n.orelse[0].exc.args[0]) == ast.dump(ast.parse('"Unknown message type %r" % (msgtype,)', mode='eval').body)):
+            raise TranslateError('MessagePackRpc: an unknown message type is not a MessagePackDecodeError of (msgtype,)')
+        break
+    if sorted(seen) != ['MSGPACK_ERROR', 'MSGPACK_NOTIFY', 'MSGPACK_REQUEST', 'MSGPACK_RESPONSE']:
+        raise TranslateError('MessagePackRpc: message types %r' % seen)
+    vals = {}
+    cls = [c for c in tree.body if isinstance(c, ast.ClassDef) and c.name == 'MessagePackRpc'][0]
+    for a in cls.body:
+        if isinstance(a, ast.Assign) and isinstance(a.targets[0], ast.Name) and a.targets[0].id.startswith('MSGPACK_'):
+            vals[a.targets[0].id] = const_int(a.value)
+    if vals != {'MSGPACK_REQUEST': 0, 'MSGPACK_RESPONSE': 1, 'MSGPACK_NOTIFY': 2, 'MSGPACK_ERROR': 3}:
+        raise TranslateError('MessagePackRpc: message type numbers %r' % vals)
+    dec = [x for x in ast.walk(fn) if isinstance(x, ast.Try) and 'msgname_or_error' in ast.dump(x)]
+    want = ast.parse("try:\n"
+                     "    msgname_or_error = msgname_or_error.decode(self.default_string_encoding)\n"
+                     "except UnicodeDecodeError as e:\n"
+                     "    raise MessagePackDecodeError(str(e))\n").body[0]
+    if len(dec) != 1 or ast.dump(dec[0]) != ast.dump(want):
+        raise TranslateError('MessagePackRpc: an undecodable method name is not a MessagePackDecodeError')
+    de = find_function(tree, ['MessagePackRpc', 'deserialize'])
+    br = [x for x in ast.walk(de) if isinstance(x, ast.If) and ast.dump(x.test) == ast.dump(
+        ast.parse('ctx.in_body_doc is None', mode='eval').body)]
+    call = 'ctx.in_object = self._doc_to_object(ctx, body_class, ctx.in_body_doc, self.validator)'
+    if len(br) == 1 and [ast.dump(x) for x in br[0].body] == tmpl('ctx.in_object = [None] * len(body_class._type_info)') \
+            and [ast.dump(x) for x in br[0].orelse] == tmpl(call):
+        nil = TRUE
+    elif not br and any(ast.dump(x) == tmpl(call)[0] for x in ast.walk(de)):
+        nil = FALSE
+    else:
+        raise TranslateError('MessagePackRpc.deserialize: unrecognised treatment of the parameters')
+    mk = find_function(tree, ['MessagePackDocument', 'gen_method_request_string'])
+    want = ast.parse("try:\n    mrs = mrs.decode(self.key_encoding)\n"
+                     "except UnicodeDecodeError as e:\n    raise MessagePackDecodeError(str(e))\n").body[0]
+    kd = [x for x in ast.walk(mk) if isinstance(x, ast.Try)]
+    if len(kd) != 1 or ast.dump(kd[0]) != ast.dump(want):
+        raise TranslateError('MessagePackDocument.gen_method_request_string: an undecodable key is not a MessagePackDecodeError')
+    return ('(* msgpack.py: a response / error / notification / unknown type sent as a request, an undecodable\n'
+            '   method name (rpc) or method key (document) are Client.MessagePackDecodeError faults *)\n'
+            'Definition mp_envelope_errors_are_decode_errors : bool := true.\n'
+            '(* MessagePackRpc.deserialize: [type, id, method, nil] -> every argument is absent *)\n'
+            'Definition rpc_nil_params_absent_args : bool := %s.\n' % nil)
 
 
 def hier_freq_calls(t_hier):
@@ -492,6 +647,7 @@ def generate(repo):
     out.append(tr_doc_to_object(t_hier))
     out.append(tr_from_dict_value(t_hier))
     out.append(tr_deserialize(t_hier))
+    out.append(tr_rpc_envelope(t_mp))
     out.append(tr_check_freq(t_base))
     rows, facts = handler_rows()
     tags = sorted(set(r.split(', ')[-1].rstrip(')') for r in rows) | set(
